@@ -250,6 +250,67 @@ pub fn gen_strict_pairs(a: &Args, out: &mut Out, run0: u64, npairs: u64, fullini
         ma.end(&mut oa); mb.end(&mut ob);
         out.append(oa); out.append(ob);
     }
+    // targeted pairs on FULLY INITIALISED machines: loads from ports nobody answers (unmapped port, empty
+    // keyboard data register, display data register) and use of the loaded value - never a strict error
+    if fullinit {
+        let mut run = run0 + 2 * npairs;
+        for &port in &[0xFE10u16, 0xFE02, 0xFE06, 0xFE0E, 0xFFF0] {
+            for real in [false, true] {
+                let base = SimFlags { strict: false, use_real_traps: real, machine_init: MachineInitStrategy::Known { value: 0 },
+                                      debug_frames: false, ignore_privilege: true };
+                let mut oa = Out::buffer();
+                let mut ob = Out::buffer();
+                let mut ma = M::new(run, base, &mut oa);
+                let mut mb = M::new(run + 1, SimFlags { strict: true, ..base }, &mut ob);
+                run += 2;
+                for addr in 0..=u16::MAX { let v = ma.sim.mem[addr].get(); ma.sim.mem[addr] = Word::new_init(v); mb.sim.mem[addr] = Word::new_init(v); }
+                ma.resync_shadow(); mb.resync_shadow();
+                for (m, o) in [(&mut ma, &mut oa), (&mut mb, &mut ob)] {
+                    for reg in 0..8u8 { m.set_reg(o, reg, word(0x3100 + reg as u16, 0xFFFF)); }
+                    // LDI R1, PTR ; ADD R2, R1, #1 ; STR R1, R6, #0 ; LDR R3, R2, #0 ; JMP R4 ... PTR
+                    m.set_mems(o, &[(0x3000, word(0xA205, 0xFFFF)), (0x3001, word(0x1461, 0xFFFF)), (0x3002, word(0x7380, 0xFFFF)),
+                                    (0x3003, word(0x6680, 0xFFFF)), (0x3004, word(0xC100, 0xFFFF)), (0x3006, word(port, 0xFFFF))]);
+                    m.set_pc(o, 0x3000);
+                }
+                for _ in 0..6 {
+                    let xa = ma.step(&mut oa, false, false);
+                    let xb = mb.step(&mut ob, false, false);
+                    if xa != "ok" || xb != "ok" { break; }
+                }
+                ma.end(&mut oa); mb.end(&mut ob);
+                out.append(oa); out.append(ob);
+            }
+        }
+    }
+    // targeted pairs under REAL traps: an execute-stage fault (access violation, user-mode RTI) is vectored
+    // with the same saved PC whether strict mode is on or not
+    if !fullinit {
+        let mut run = run0 + 2 * npairs + 1000;
+        for &(iw, r1) in &[(0x2200u16, 0u16), (0x6240, 0x0000), (0x7240, 0xFE00), (0x8000, 0), (0xA201, 0), (0x3200, 0)] {
+            let base = SimFlags { strict: false, use_real_traps: true, machine_init: MachineInitStrategy::Known { value: 0 },
+                                  debug_frames: false, ignore_privilege: false };
+            let mut oa = Out::buffer();
+            let mut ob = Out::buffer();
+            let mut ma = M::new(run, base, &mut oa);
+            let mut mb = M::new(run + 1, SimFlags { strict: true, ..base }, &mut ob);
+            run += 2;
+            for (m, o) in [(&mut ma, &mut oa), (&mut mb, &mut ob)] {
+                for reg in 0..8u8 { m.set_reg(o, reg, word(0x3100 + reg as u16, 0xFFFF)); }
+                m.set_reg(o, 1, word(r1, 0xFFFF));
+                // the faulting instruction sits at x2FFF-relative distance so that LD/ST reach below x3000
+                m.set_mems(o, &[(0x3000, word(if iw == 0x2200 { 0x23FE } else if iw == 0x3200 { 0x33FD } else { iw }, 0xFFFF)),
+                                (0x3001, word(0x1021, 0xFFFF)), (0x3002, word(0x0100, 0xFFFF))]);
+                m.set_pc(o, 0x3000);
+            }
+            for _ in 0..40 {
+                let xa = ma.step(&mut oa, false, false);
+                let xb = mb.step(&mut ob, false, false);
+                if xa != "ok" || xb != "ok" { break; }
+            }
+            ma.end(&mut oa); mb.end(&mut ob);
+            out.append(oa); out.append(ob);
+        }
+    }
     // targeted pairs: an accepted jump / call / return into each device and internal-register port
     // (the strict-mode check of the next PC must not touch the port or its memory mirror)
     if !fullinit {
@@ -356,6 +417,12 @@ pub fn gen_run(a: &Args, out: &mut Out, run0: u64, nruns: u64, npairs: u64) {
         if chance(&mut rng, 50) { let pc = 0x3000 + rng.random_range(0..16u16); m.add_breakpoint_pc(out, pc); }
         if chance(&mut rng, 30) { let ck = pick(&mut rng, &["eq", "gt", "ge", "lt", "le", "ne", "never", "always"]); let v = if ck == "always" || ck == "never" { 0 } else { rng.random_range(0..8u16) };
                                   m.add_breakpoint_cmp(out, "reg", rng.random_range(1..5u16), ck, v); }
+        // comparisons are unsigned: thresholds and values on both sides of x8000
+        if chance(&mut rng, 30) { let ck = pick(&mut rng, &["gt", "ge", "lt", "le"]); let v = pick(&mut rng, &[0x7FFFu16, 0x8000, 0x8001, 0xFFFF, 0xFFF0, 3]);
+                                  let r = rng.random_range(2..5u8); m.add_breakpoint_cmp(out, "reg", r as u16, ck, v);
+                                  if chance(&mut rng, 60) { m.set_reg(out, r, word(pick(&mut rng, &[0x7FFEu16, 0x7FFF, 0x8000, 0xFFFE, 0xFFFA, 1]), 0xFFFF)); } }
+        if chance(&mut rng, 20) { m.set_mems(out, &[(0x3013, word(pick(&mut rng, &[0x7FFFu16, 0x8000, 0xFFFF]), 0xFFFF))]);
+                                  m.add_breakpoint_cmp(out, "mem", 0x3013, pick(&mut rng, &["gt", "lt", "ge", "le"]), pick(&mut rng, &[0x7FFFu16, 0x8000, 5])); }
         if chance(&mut rng, 30) { m.add_breakpoint_cmp(out, "mem", 0x3012 + rng.random_range(0..3u16), pick(&mut rng, &["eq", "gt", "ne"]), rng.random_range(0..6u16)); }
         let mut calls = 0;
         while calls < 8 {
